@@ -293,10 +293,14 @@ def check(rep, F, tier, replay=None):
                             passes = True
             if not passes:
                 rep.violation("TARGET", "%s|pass-through" % key, "%s no longer hands its address parameter through unchanged" % key, {})
+    from ruleutil import cancel_rule
+    cancel_rule(rep, F, ["src/builders/batch_tools/", "src/builders/tx_batch_builder.rs"])
     classify_all_rule(rep, F)
     unique_input_rule(rep, F)
     from ruleutil import arith_unused_rule
     arith_unused_rule(rep, F, ["src/builders/batch_tools/", "src/builders/tx_batch_builder.rs"])
     from ruleutil import batch_total_rule
     batch_total_rule(rep, F)
+    from ruleutil import boot_size_each_rule
+    boot_size_each_rule(rep, F)
     return rep.finish(EXPLANATION, ["the categorizer stores the address parameter unchanged (AssetCategorizer::new / TxOutputProposal::new clone it)"], ["csl-facts driver (HIR/MIR)", "tables/conway_cddl.json (set types, tag 258)", "E2 writer tables"])
